@@ -11,7 +11,8 @@ import posixpath
 import re
 
 from ..core import register_machine, Violation
-from ..seams import CTX, HarnessError, SimSet
+from ..seams import CTX, HarnessError
+from ..seams import make_set as SimSet
 from ..util import cjson, h64, exc_class
 from .. import pools
 from .. import ini as inimod
